@@ -1,7 +1,7 @@
 PROP = dict(
     drivers=['Rip', 'Bgi', 'Igs', 'Ripc', 'Igsx', 'Ript'],
         gens=['rip', 'bgi', 'igs', 'bgix', 'riprun', 'igspaint', 'riptext'],
-        lake=['IcyVerif.Props.C20', 'IcyVerif.Props.C20Canvas', 'IcyVerif.Props.C20Igs', 'IcyVerif.Props.C20IgsCost', 'IcyVerif.Props.C20Text'],
+        lake=['IcyVerif.Props.C20', 'IcyVerif.Props.C20Canvas', 'IcyVerif.Props.C20Igs', 'IcyVerif.Props.C20IgsCost', 'IcyVerif.Props.C20Text', 'IcyVerif.Props.C20IgsTotal'],
         ns='IcyVerif.C20',
         theorems=['rip_table_wellformed', 'base36_bounded', 'rip_step_total', 'rip_lex_total',
                   'put_pixel_in_bounds', 'put_pixel_keeps_canvas', 'bar_rect_cost', 'bar_rect_cost_in_window',
@@ -17,6 +17,8 @@ PROP = dict(
                   'igs_picture_complete', 'igs_stream_picture_complete', 'igs_set_pixel_total', 'igs_fill_rect_total',
                   'picture_fold_eq', 'igs_draw_line_terminates_partial', 'igs_poly_lines_total',
                   'igs_flood_fill_terminates', 'igs_blit_screen_total',
+                  # IGS executor-level totality (Props/C20IgsTotal.lean)
+                  'igs_aux_initial', 'igs_exec_keeps_aux', 'igs_exec_total_partial',
                   # cost of the IGS block operations (Props/C20IgsCost.lean)
                   'igs_blit_screen_cost', 'igs_grab_screen_cost', 'igs_fill_rect_cost',
                   # RIP text path (Props/C20Text.lean)
@@ -77,7 +79,7 @@ PROP = dict(
                  'repaired, parameter arithmetic); DrawExecutor::execute_command (all 31 arms), set_pixel, get_pixel, fill_pixel, '
                  'draw_line, fill_rect, draw_poly, draw_polyline, fill_poly, round_rect, draw_poly_maker, fill_ellipse, draw_ellipse, '
                  'draw_circle, flood_fill, blit_screen_to_screen / _to_memory / memory_to_screen, set_resolution, clear, '
-                 'get_picture_data (all as repaired); cost (loop rounds, pixel accesses) of fill_rect, blit_screen_to_screen, '
+                 'get_picture_data (all as repaired, incl. round_rect scaling in i64); executor-level totality: execute_command neither panics nor stalls for 27 of the 31 arms + the default arm under Good / Aux / ParamsOk (igs_exec_total_partial), Aux kept by every arm (igs_exec_keeps_aux); cost (loop rounds, pixel accesses) of fill_rect, blit_screen_to_screen, '
                  'blit_screen_to_memory, blit_memory_to_screen and of the commands made of them (FilledRectangle, Box without border, '
                  'GrabScreen); RIP text path, integer part: FontStyle::run / Bgi::set_text_style, FontType::from, Direction::from, '
                  'FontType::get_font, the SCALE_UP / SCALE_DOWN lookups and divisions of font.rs / character.rs, the characters[code] guards',
@@ -86,7 +88,7 @@ PROP = dict(
                      'what the strokes of out_text / stroked fonts draw and the f32 glyph widths (the table lookups are modelled), get/put image, copy region, buttons, mouse fields, icons and '
                      'file queries (file I/O; the harness uses an empty directory), text window, ResetWindows; IGS write_text (f32 '
                      'glyph scaling) and the effects of commands on the text buffer / caret; the ANSI fallback parser (C01); '
-                     'characters above U+00FF; wall-clock and memory.  No coordinate-independent cost bound exists for IGS draw_line '
+                     'characters above U+00FF; wall-clock and memory.  IGS execute_command arms RoundedRectangles, Circle, Ellipse, PolyFill have NO totality theorem (their panic / stall outcomes are in the model, excluded only by correspondence + oracle incl. the ParamsOk edge family; they keep the conditional igs_exec_keeps_invariant / igs_exec_keeps_aux); WriteText is the model outcome `unmodelled`.  No coordinate-independent cost bound exists for IGS draw_line '
                      'and the ellipse loops (the code walks unclipped lines: linear in the coordinate values), see '
                      'igs_draw_line_terminates_partial.  The cost function of blit_memory_to_screen is in the model and tied by the igsc '
                      'correspondence, but its bound (rounds <= (width + 1) x (height + 1) for a destination on the screen) has no theorem yet; '
